@@ -9,6 +9,7 @@ from pathlib import Path
 from crosshair.tracers import NoTracing
 
 from vt import lift, rt, world
+from vt.lift import RealFallback
 from vt.core import digits, shard, tick
 from vt.harness import c18, hist
 from vt.harness.gc import R, Repository, exceptions, fresh_repo, users
@@ -81,7 +82,7 @@ _MK_DL = lift.lift_closure('replicat.repository', 'restore', '_download_chunk', 
                            overrides={'io': _FakeIO, 'utils': _FakeUtils, 'memoryview': (lambda x: x), 'logger': rt.Nop(), 'os': _FakeOS})
 
 
-class _Self:
+class _Self(RealFallback):
     _quiet = True
 
     def __init__(self, props, stored):
@@ -176,7 +177,7 @@ _MK_DS = lift.lift_closure('replicat.repository', '_load_snapshots', '_download_
                            overrides={'logger': rt.Nop()})
 
 
-class _D3Self:
+class _D3Self(RealFallback):
     parse_snapshot_location = Repository.parse_snapshot_location
     SNAPSHOT_PREFIX = Repository.SNAPSHOT_PREFIX
 
@@ -187,6 +188,12 @@ class _D3Self:
     def _download_snapshot_threadsafe(self, path, digest, *, loop):
         self.calls.append((path, digest))
         return 'BODY'
+
+    def __getattr__(self, name):
+        # any other helper the lifted statements call on `self` is the real one
+        import types
+        attr = getattr(Repository, name)
+        return types.MethodType(attr, self) if callable(attr) else attr
 
 
 def d3_tag(name: str, tag: str) -> bool:
